@@ -164,7 +164,7 @@ def showRetry (isRecv : Bool) (bufsize : Nat) (r : RetryRes) : String :=
   | .ok, .ok _ => if isRecv then "bad-op" else "ret ok"
   | o, _ => showSendOut o
 
-def runDgram (bufsize : Nat) (ri : Tmo) (ops : List POp) : List String :=
+def runDgram (layerClient : Bool) (bufsize : Nat) (ri : Tmo) (ops : List POp) : List String :=
   let rec go (i : Nat) : List POp → Sess Unit → Sess Unit
     | [], s => s
     | op :: rest, s =>
@@ -172,14 +172,14 @@ def runDgram (bufsize : Nat) (ri : Tmo) (ops : List POp) : List String :=
       let s := s.emit [s!"op {i}"]
       match op with
       | .tick p => go (i + 1) rest { s with w := { s.w with now := s.w.now + p } }
-      | .recv t _ sock sel =>
+      | .recv t lk sock sel =>
         let w0 : World := { s.w with sel := sel }
-        let r := dgramRecv ri bufsize t sock w0
+        let r := udpClientRecv ri bufsize (if layerClient then lk else none) t sock w0
         go (i + 1) rest ({ s with w := r.w, dead := r.out.aborts }.emit
           (newLog w0 r.w ++ [showRetry true bufsize r, s!"t {r.w.now - w0.now}"]))
-      | .send t d _ sock sel =>
+      | .send t d lk sock sel =>
         let w0 : World := { s.w with sel := sel }
-        let r := dgramSend ri d t sock w0
+        let r := udpClientSend ri d (if layerClient then lk else none) t sock w0
         go (i + 1) rest ({ s with w := r.w, dead := r.out.aborts }.emit
           (newLog w0 r.w ++ [showRetry false bufsize r, s!"t {r.w.now - w0.now}"]))
       | .iter _ _ => { s with dead := true }.emit ["bad-op"]
@@ -224,7 +224,7 @@ def runTimeout (model : String) (cfg ops : List String) : Option (List String) :
                     chunk.length)
               layerClient fl ri sep fix pops)
           | _ => none
-        | "dgram" => pure (runDgram bufsize ri pops)
+        | "dgram" => pure (runDgram layerClient bufsize ri pops)
         | _ => none
   | _, _ => none
 
